@@ -85,7 +85,7 @@ TraceInit ==
   /\ att = [a \in Actors |-> 0]
   /\ loc = [a \in Actors |-> EmptyLoc]
   /\ faults = 99
-  /\ armed = [a \in Actors |-> "none"]
+  /\ lease = [t |-> 0, lost |-> {}]
   /\ commitLog = <<>>
   /\ LET b == InitCurBody IN
      /\ serial = [files |-> IF b.cur = 0 THEN {} ELSE InitFilesOf(SnapOf(b, b.cur).list),
@@ -123,6 +123,9 @@ TrResolve ==
        [] ev.why = "read"     -> RBegin(A, n)
        [] ev.why = "gc"       -> GBegin(A, n)
        [] OTHER               -> NoopResolve(A, n)
+
+\* CAS backends: the pointer is read again, with its ETag, right before the new version is written
+TrReadHintEtag == IsEv("ReadHintEtag") /\ ev.ok /\ ReadVersion(A, Name(ev.name))
 
 TrWriteMarker ==
   /\ IsEv("WriteMarker")
@@ -205,6 +208,7 @@ TrTLock   == IsEv("TLock") /\ TLock(A)
 TrTUnlock == IsEv("TUnlock") /\ TUnlock(A)
 TrLockTry == IsEv("LockTry") /\ IF ev.ok THEN DLock(A) ELSE (lockHolder \notin {"none", A} /\ Stutter)
 TrDUnlock == IsEv("DUnlock") /\ DUnlock(A)
+             /\ (("wiped" \in DOMAIN ev /\ ev.wiped) <=> (lockHolder \notin {A, "none"} /\ lockHolder' = "none"))
 
 TrWriteMeta ==
   /\ IsEv("WriteMeta")
@@ -218,9 +222,12 @@ TrFlipHint ==
   /\ IsEv("FlipHint")
   /\ FlipHint(A)
   /\ Name(ev.name) = MyMetaName(A)
+  /\ ev.cas => Name(ev.ifmatch) = loc[A].etagName       \* the conditional PUT is keyed to the read the model recorded
   /\ ev.ok <=> (hint' = [cls |-> "name", name |-> MyMetaName(A)] /\ pc'[A] = "c_unlock")
 
 TrBackoff == IsEv("Backoff") /\ Backoff(A)
+TrHeartbeat == IsEv("Heartbeat") /\ IF ev.ok THEN (IF lease.t = clock THEN lockHolder = ev.who /\ Stutter ELSE Heartbeat(ev.who))
+                                               ELSE (lockHolder # ev.who /\ Stutter)
 
 \* collector: listings must show exactly what the model's storage holds
 TrList ==
@@ -253,7 +260,7 @@ TrRet ==
      ELSE (IF pc[A] = "rollback" THEN ReturnErrLeaving(A) ELSE ReturnErr(A)) /\ ev.res = loc[A].err
 
 TrTick == IsEv("Tick") /\ clock' = ev.val /\ ev.val >= clock
-          /\ UNCHANGED <<storageVars, lockHolder, rlock, actorVars, faults, armed, ghostVars>>
+          /\ UNCHANGED <<storageVars, lockHolder, rlock, actorVars, faults, lease, ghostVars>>
 
 \* the independent reader's projection of the real storage must equal the model's storage
 TrObserve ==
@@ -267,10 +274,10 @@ TrObserve ==
   /\ Stutter
 
 TraceNext ==
-  \/ TrCommitStart \/ TrFinish \/ TrFault
+  \/ TrCommitStart \/ TrFinish \/ TrFault \/ TrReadHintEtag
   \/ TrBegin \/ TrResolve \/ TrWriteMarker \/ TrWriteData \/ TrExists \/ TrRead \/ TrWriteMan \/ TrWriteList
   \/ TrNow \/ TrTLock \/ TrTUnlock \/ TrLockTry \/ TrDUnlock \/ TrWriteMeta \/ TrFence \/ TrFlipHint
-  \/ TrReadFailed \/ TrBackoff \/ TrList \/ TrStat \/ TrDeleteMarker \/ TrDeleteFile \/ TrRet \/ TrTick \/ TrObserve
+  \/ TrReadFailed \/ TrBackoff \/ TrHeartbeat \/ TrList \/ TrStat \/ TrDeleteMarker \/ TrDeleteFile \/ TrRet \/ TrTick \/ TrObserve
 
 TraceSpec == TraceInit /\ [][TraceNext]_tvars
 
@@ -284,7 +291,7 @@ TraceSpec == TraceInit /\ [][TraceNext]_tvars
 (***************************************************************************)
 InvTable == << <<"TypeOK", TypeOK>>, <<"Serializable", TableDamaged \/ Serializable>>, <<"LinearChain", LinearChain>>,
                <<"AckedOnce", AckedOnce>>, <<"NoDoubleCommit", NoDoubleCommit>>,
-               <<"ReachablePresent", TableDamaged \/ ReachablePresent>>, <<"FlipReplacesValidated", FlipReplacesValidated>>,
+               <<"ReachablePresent", TableDamaged \/ ReachablePresent>>, <<"FlipReplacesValidated", FlipReplacesValidated>>, <<"LostLockNeverAcks", LostLockNeverAcks>>,
                <<"NoLiveDelete", NoLiveDelete>>, <<"NoDeleteOnAmbiguous", NoDeleteOnAmbiguous>>,
                <<"OnlyOrphansDeleted", OnlyOrphansDeleted>>, <<"AbortDeletesNothing", AbortDeletesNothing>>, <<"InflightPresent", InflightPresent>>, <<"ReadIsSnapshot", TableDamaged \/ ReadIsSnapshot>>, <<"ReadsMonotone", TableDamaged \/ ReadsMonotone>> >>
 ViolatedNow == {i \in 1..Len(InvTable) : ~InvTable[i][2]}
